@@ -125,6 +125,12 @@ def run(ctx):
     cs = W.ctor_fields(sm.RESPONDER)
     pk = cs[0][3].get("long_term_public_key") if cs else None
     okpk = pk is not None and values.contains(pk, lambda s: is_call(s, "LongTermKey::public_key") and s[2][0] == ("param", cs[0][0].path, 3))
+    if not okpk and pk is not None and values.contains(pk, lambda s: s == ("param", cs[0][0].path, 3)):
+        # the key rendered through its Display implementation (`ltk.to_string()`): that implementation must print the public key
+        disp = [f.path for f in P.fns.values() if f.impl_self == LTK and f.impl_trait == "core::fmt::Display" and f.path.endswith("::fmt")]
+        if disp:
+            reach_d, ext_d, _ = P.reach(disp)
+            okpk = any(x.endswith("MsgSigner::public_key_bytes") or x.endswith("LongTermKey::public_key") for x in reach_d)
     ctx.check("one-identity", "announced-key-is-the-signing-key", okpk, "the announced public key is ltk.public_key()", "announced key is %s" % fmt(pk), ctx.loc(cs[0][0]) if cs else None)
 
     # ------------------------------------------------------------------ (4) certificate contents
